@@ -55,6 +55,11 @@ CHECKS = {
          "Distance (all pairs), Eccentricity, Diameter, Radius, Girth, ConnectedComponent(s), BiconnectedComponents, NumberOfCycles and NumberOfInducedCycles/Paths for every bound -1..n+1 are called on every class n <= 7 (8 thorough) x 4 labellings, all labelled graphs n <= 5 (6), 101 families, 480 (4800) constructed block forests / cacti up to 30 vertices and 640 (6400) seeded graphs, each as dense, sparse, induced view and complement view; results are compared with the oracles, vertex-indexed results mapped through the relabelling; entries beyond the bound are not judged.",
          "Trusts the conn oracles (self-checked on closed forms and against the brute-force package).",
          "DESIGN.md section 4 C10"),
+ "C11": ("exploration",
+         "runtime monitoring with a certificate-checked oracle: every expected verdict carries a rotation system verified by an Euler-genus checker or a verified K5/K3,3 subdivision; constructed planar / non-planar families up to 200 vertices, class sweeps, metamorphic relations; panics and non-termination are violations",
+         "IsPlanar is called on every class n <= 8 under many relabellings (all of them for n <= 6; n = 9 and a sample of n = 10 in thorough) in dense and sparse form, on thousands of graphs planar by construction (stacked / flipped triangulations, plane 2-connected graphs, outerplanar, grids, block trees and their subgraphs, subdivisions, pendant / isolated extensions) and non-planar by construction (subdivided K5 / K3,3 alone, glued, overlaid deep inside planar hosts), on named and near-planar graphs judged by an independent DMP whose certificates are verified, and on certificate-free metamorphic pairs. Only certified disagreements are violations.",
+         "Trusts the two certificate checkers (self-checked: K4 2/16 rotation systems, K5 0/7776, K3,3 0/64; planar class counts = A005470 up to n = 9). For n >= 9 the class list comes from search.All.",
+         "DESIGN.md section 4 C11"),
  "C12": ("exploration",
          "runtime monitoring: model-based oracle (sorted word list, ranks = indices, minimal DFA size by hash-consing right languages) on every built automaton, Add histories with rejected words, node structure read through a verif-tagged accessor",
          "For all 2^15 word sets over {a,b} (length <= 3), all 2^13 over {a,b,c} (length <= 2), seeded sets over alphabets of 1..256 bytes up to 5000 words (thorough: 2^21 sets, the dictionary) every member, prefix, extension, one-byte edit and random probe is looked up and compared with the model (rank = index), NumberOfWords, node count (GobEncode header and accessor) = minimal DFA size, per-node word counts = right-language sizes; Add histories with out-of-order / duplicate / nil / caller-mutated words must reject exactly those and build the accepted subsequence.",
